@@ -49,7 +49,7 @@ theorem response_scales (a alpha : K) (c : List K) (nmcp : Nat) (xs : List K) :
 
 /-! non-vacuity -/
 instance : Transc ℚ := ⟨id, id, id, id, fun x _ => x⟩
-instance : Consts ℚ := ⟨10, 3, 1 / 17, 1 / 9, -10000000000, 3⟩
+instance : Consts ℚ := ⟨10, 3, 1 / 17, 1 / 9, -10000000000, 3, 1 / 10 ^ 100⟩
 example : mc2b (1 / 2 : ℚ) [1, 2, 4] = [1, 0, 4] := by
   rw [mc2b_cons, mc2b_cons, mc2b_cons, mc2b_nil]; norm_num
 
